@@ -199,6 +199,30 @@ func runC15(c *Ctx) {
 		c.Ob("C15-D2", "sio.Manager.onClose/reconnects", oc.Pos(), okr, "a lost connection must start reconnecting unless reconnection is disabled or was stopped on purpose")
 	}
 
+	c.Rule("C15-D4", "a new outage starts a new back-off cycle, and volatile means volatile everywhere: Manager.onClose resets the attempt counter on every path — whatever the reason and whether or not it starts a reconnect "+
+		"(a counter left non-zero by an interrupted cycle makes the next failed Open look like a retry that must not be retried) —, and a volatile emit never enters the retry queue (it would be delivered after the reconnect)", 3)
+	{
+		oc := p.Fn("sio", "Manager.onClose")
+		isReset := callPred(`\(\*sio\.backoff\)\.reset`)
+		skip, trail := CanReachExitAvoiding(oc, nil, isReset)
+		c.Ob("C15-D4", "sio.Manager.onClose/resets-backoff-always", oc.Pos(), !skip && len(findInstrs(oc, isReset)) >= 1, "a path through Manager.onClose does not reset the back-off: "+trailString(p, trail))
+		// and before the reconnect goroutine is started
+		for _, g := range findInstrs(oc, func(in ssa.Instruction) bool {
+			gi, ok := in.(*ssa.Go)
+			return ok && strings.Contains(calleeName(&gi.Call), "reconnect")
+		}) {
+			early, tr := CanReachAvoiding(oc, nil, func(in ssa.Instruction) bool { return in == g }, isReset)
+			c.Ob("C15-D4", "sio.Manager.onClose/reset-before-reconnect", g.Pos(), !early, "the reconnect loop can start before the attempt counter was reset: "+trailString(p, tr))
+		}
+		em := p.Fn("sio", "clientSocket.emit")
+		isQueue := callPred(`\(\*sio\.clientPacketQueue\)\.addToQueue`)
+		if len(findInstrs(em, isQueue)) == 0 {
+			anchorFail("C15-D4: clientSocket.emit no longer hands packets to the retry queue (addToQueue not found)")
+		}
+		r, tr := PrunedCanReach(em, nil, []Assume{{`volatile`, true}, {`!volatile`, false}}, isQueue, nil)
+		c.Ob("C15-D4", "sio.clientSocket.emit/volatile-not-queued", em.Pos(), !r, "a volatile emit can enter the retry queue: it is kept while disconnected and delivered after the reconnect: "+trailString(p, tr))
+	}
+
 	c.Rule("C15-D3", "offline buffer: frames of a non-volatile emit on a disconnected socket are appended to sendBuffer, volatile ones are neither buffered nor sent, connected ones are sent; emitBuffered always clears the receive buffer and, when frames are buffered, hands all of them in order to the manager and clears the buffer — on every path; onConnect flushes after marking the socket connected", 10)
 	{
 		fn := p.Fn("sio", "clientSocket._sendBuffers")
